@@ -13,6 +13,17 @@ var (
 	_ vivid.ActorRef = (*Ref)(nil)
 )
 
+func init() {
+	// 内置消息中的 ActorRef 字段在网络间以 (address, path) 传输，由此还原为 *Ref
+	vivid.RegisterActorRefDecoder(func(address, path string) (vivid.ActorRef, error) {
+		ref, err := NewRef(address, path)
+		if err != nil {
+			return nil, err
+		}
+		return ref, nil
+	})
+}
+
 const agentFutureMarker = "@future@"
 const LocalAddress = "localhost"
 
